@@ -208,6 +208,8 @@ class PreemptibleResource(Entity):
             self._try_preempt(amount, priority)
             if self._available >= amount:
                 self._grant_immediate(future, amount, priority, on_preempt)
+                # Capacity freed beyond this request goes to the waiting queue
+                self._wake_waiters()
                 return future
 
         # Must wait
@@ -230,6 +232,8 @@ class PreemptibleResource(Entity):
             len(self._waiters),
         )
 
+        # Capacity freed by a partial preemption goes to the head of the queue
+        self._wake_waiters()
         return future
 
     def _grant_immediate(
